@@ -37,7 +37,7 @@ def run(ctx):
     gen = os.path.join(ctx.build, "Generated.v")
     rc, out = ctx.sh([tool, os.path.join(lib.REPO, "core/safemath/safe_math.go"), gen])
     translated = rc == 0
-    ok, mout = ctx.coq_make()
+    ok, mout = ctx.coq_make(ctx.vo_targets([DIR], 'Properties/C19.v'))
     if not ok:
         ctx.violation({"kind": "proof-broken", "what": "make of /verif/coq failed", "log_tail": mout[-3000:]}, tag="proof", no_input=True)
         return
